@@ -201,6 +201,23 @@ def gen(rng, tier):
     big = [[0] * 700 for _ in range(60)]
     cases.append({"f": big, "t": [1] * 60, "opts": {}})
     cases.append({"f": [2] * 50, "t": [[5] * 900 for _ in range(50)] + [3], "opts": {}})
+    # lists of a few to a few dozen medium or large elements that are all REPLACED (string against list or number:
+    # constant-cost cells), so that the accumulated cost sweeps across 2^8 and 2^16 while every single element and the
+    # length stay far below those limits
+    for i in range(24 if tier == "quick" else 200):
+        k = rng.choice([2, 3, 5, 8, 13, 40, 60])
+        sz = int(10 ** rng.uniform(1, 3.45))
+        while k * sz > 200000:
+            sz //= 2
+        a = ["s" * (sz + j % 3) + str(j) for j in range(k)]
+        b = [[j] * max(1, sz // 2 + (j % 2)) for j in range(k + rng.choice([0, 0, 1, -1]))]
+        cases.append({"f": a, "t": b, "opts": rng.choice([{}, {"allow_list_edits": False}, {}])})
+    # five 40-character strings replaced by five unrelated ones, and the like (cumulative cost of a few hundred)
+    for i in range(10 if tier == "quick" else 80):
+        k, L = rng.choice([(5, 40), (4, 60), (3, 80), (6, 30), (2, 120)])
+        a = ["".join(rng.choice("abcdefghijklm") for _ in range(L)) for _ in range(k)]
+        b = ["".join(rng.choice("nopqrstuvwxyz") for _ in range(L)) for _ in range(k - (i % 2))]
+        cases.append({"f": a if i % 3 else {"rows": a, "n": 1}, "t": b if i % 3 else {"rows": b, "n": 2}, "opts": {}})
     # CSV tables: the real csv loader builds ListNode(rows) of ListNode(cells) of StringNodes WITHOUT the list
     # options; at the level of edits this is the JSON diff of a list of lists of strings under default options
     cells = ["1", "2", "a", "b", "ab", "abc", "", "x y", "10"]
